@@ -16,6 +16,7 @@ type persistGate struct {
 	mu      sync.Mutex
 	armed   string
 	bulk    bool // the armed call is PacketsStore (the queues handed over at connection end) instead of PacketStoreQoS12
+	load    int  // 1 / 2: the armed call is the start-up load PacketsForEachQoS0 / PacketsForEachQoS12 (held BEFORE it loads)
 	entered chan struct{}
 	release chan struct{}
 	loads   map[string]int
@@ -37,6 +38,7 @@ func (g *persistGate) Arm(id string) {
 	g.mu.Lock()
 	g.armed = id
 	g.bulk = false
+	g.load = 0
 	g.entered = make(chan struct{})
 	g.release = make(chan struct{})
 	g.mu.Unlock()
@@ -47,6 +49,17 @@ func (g *persistGate) ArmBulk(id string) {
 	g.Arm(id)
 	g.mu.Lock()
 	g.bulk = true
+	g.mu.Unlock()
+}
+
+// ArmLoad: the next start-up load of the QoS 0 (qos12 false) or QoS 1/2 (true) backlog of id blocks until Release
+func (g *persistGate) ArmLoad(id string, qos12 bool) {
+	g.Arm(id)
+	g.mu.Lock()
+	g.load = 1
+	if qos12 {
+		g.load = 2
+	}
 	g.mu.Unlock()
 }
 
@@ -89,7 +102,7 @@ type gatedSessions struct {
 func (s *gatedSessions) PacketStoreQoS12(id []byte, p *vlpersistence.PersistedPacket) error {
 	s.g.mu.Lock()
 	var rel chan struct{}
-	if s.g.armed != "" && !s.g.bulk && s.g.armed == string(id) {
+	if s.g.armed != "" && !s.g.bulk && s.g.load == 0 && s.g.armed == string(id) {
 		s.g.armed = ""
 		close(s.g.entered)
 		rel = s.g.release
@@ -116,7 +129,27 @@ func (s *gatedSessions) PacketsStore(id []byte, p vlpersistence.PersistedPackets
 	return s.Sessions.PacketsStore(id, p)
 }
 
+func (s *gatedSessions) holdLoad(id []byte, which int) {
+	s.g.mu.Lock()
+	var rel chan struct{}
+	if s.g.armed != "" && s.g.load == which && s.g.armed == string(id) {
+		s.g.armed = ""
+		close(s.g.entered)
+		rel = s.g.release
+	}
+	s.g.mu.Unlock()
+	if rel != nil {
+		<-rel
+	}
+}
+
+func (s *gatedSessions) PacketsForEachQoS12(id []byte, ctx interface{}, loader vlpersistence.PacketLoader) error {
+	s.holdLoad(id, 2)
+	return s.Sessions.PacketsForEachQoS12(id, ctx, loader)
+}
+
 func (s *gatedSessions) PacketsForEachQoS0(id []byte, ctx interface{}, loader vlpersistence.PacketLoader) error {
+	s.holdLoad(id, 1)
 	err := s.Sessions.PacketsForEachQoS0(id, ctx, loader)
 	s.g.mu.Lock()
 	s.g.loads[string(id)]++
